@@ -37,7 +37,7 @@ add(Contract(
     ghost={"defs": {"P0": "(state.bMarks[startLine] + state.tShift[startLine])", "T": "new_tokens(state)"}},
     requires=wf() + [("range", "0 <= startLine and startLine < _endLine and _endLine <= state.lineMax"), ("blk-nonneg", "state.blkIndent >= 0"),
                      ("nonempty-line", "state.bMarks[startLine] + state.tShift[startLine] < state.eMarks[startLine]")],
-    at=[("store:line", "definition-ends-where-its-last-line-ends", "lines == CountCh(string, 0, min(pos, maximum), '\\n') and lines >= 0 and (pos >= maximum or string[pos] == '\\n')", ["C16", "C03"])],
+    at=[("store:line", "definition-ends-where-its-last-line-ends", "value == startLine + CountCh(string, 0, min(pos, maximum), '\\n') + 1 and lines == CountCh(string, 0, min(pos, maximum), '\\n') and lines >= 0 and (pos >= maximum or string[pos] == '\\n')", ["C16", "C03"])],
     ensures=[
         ("fail-pure", "implies(not result, state.line == old(state.line) and ntokens(state) == old(ntokens(state)))", ["C07", "C01"]),
         ("silent-pure", "implies(silent, state.line == old(state.line) and ntokens(state) == old(ntokens(state)))", ["C07", "C01"]),
@@ -49,9 +49,9 @@ add(Contract(
     loops={
         0: {"inv": [("pos", "P0 <= pos and pos <= maximum and maximum == state.eMarks[startLine] and state.src[P0] == '['"), QUIET], "dec": "maximum - pos"},
         1: {"modular": True, "types": {"terminate": "bool", "terminatorRule": "none"},
-            "inv": [("next", "startLine + 1 <= nextLine and nextLine <= max(endLine, startLine + 1) and endLine == state.lineMax"), QUIET, PT, ("bracket", "state.src[P0] == '['")], "dec": "endLine - nextLine"},
+            "inv": [("next", "startLine + 1 <= nextLine and nextLine <= max(endLine, startLine + 1) and endLine == state.lineMax"), QUIET, PT, ("bracket", "state.src[P0] == '['"), ("no-lines-yet", "lines == 0")], "dec": "endLine - nextLine"},
         2: {"types": {"terminatorRule": "none"},
-            "inv": [("next", "startLine + 1 <= nextLine and nextLine < endLine and endLine == state.lineMax"), ("not-terminate", "not terminate"), QUIET, PT, ("bracket", "state.src[P0] == '['")],
+            "inv": [("next", "startLine + 1 <= nextLine and nextLine < endLine and endLine == state.lineMax"), ("not-terminate", "not terminate"), QUIET, PT, ("bracket", "state.src[P0] == '['"), ("no-lines-yet", "lines == 0")],
             "dec": "len(terminatorRules) - _it2"},
         3: {"modular": True, "types": {"ch": "optint", "labelEnd": "optint"}, "inv": [("pos", "1 <= pos"), STR, LC(), ("no-label-end", "labelEnd is None"), ("lines", "lines >= 0"), QUIET, PT, ("bracket", "state.src[P0] == '['")], "dec": "maximum - pos"},
         4: {"modular": True, "types": {"ch": "optint"}, "inv": [("pos", "2 <= pos"), STR, LC(), ("lines", "lines >= 0"), QUIET, PT, ("bracket", "state.src[P0] == '['")], "dec": "maximum - pos"},
